@@ -70,15 +70,17 @@ def make(rng, sid):
         elif how < 0.3:
             # the handle has already been used for a read that found nothing: its list of directories is still the caller's
             s.meta["variant"] = "failed_read_first"
+        # (with an explicit list of directories the project argument plays no part: given or NULL)
+        prj = rng.choice([b"ignored", None])
         s.add("NEW", 2, "opt", h(pd))
         if s.meta.get("variant") == "failed_read_first":
-            s.add("RC", 2, h(b"ignored"), h(b"/ignored"), h(b"no-such-configuration"), h(sfx), h(b"="), h(b"#"))
-        s.add("RC", 2, h(b"ignored"), h(b"/ignored"), h(name), h(sfx), h(b"="), h(b"#"))
+            s.add("RC", 2, h(prj), h(b"/ignored"), h(b"no-such-configuration"), h(sfx), h(b"="), h(b"#"))
+        s.add("RC", 2, h(prj), h(b"/ignored"), h(name), h(sfx), h(b"="), h(b"#"))
         s.add("RAW", 2)
         s.add("NEW", 3, "opt", h(pd))
         if s.meta.get("variant") == "failed_read_first":
-            s.add("RC", 3, h(b"ignored"), h(b"/ignored"), h(b"no-such-configuration"), h(sfx), h(b"="), h(b"#"), "cb:all")
-        s.add("RC", 3, h(b"ignored"), h(b"/ignored"), h(name), h(sfx), h(b"="), h(b"#"), "cb:all")
+            s.add("RC", 3, h(prj), h(b"/ignored"), h(b"no-such-configuration"), h(sfx), h(b"="), h(b"#"), "cb:all")
+        s.add("RC", 3, h(prj), h(b"/ignored"), h(name), h(sfx), h(b"="), h(b"#"), "cb:all")
         s.add("RAW", 3)
     s.add("RH", 4, *args)
     for i in range(4, 4 + NH):
